@@ -443,10 +443,14 @@ impl VersionSet {
         self.curr_wal_number = maybe_curr_wal_num.unwrap();
         self.prev_wal_number = maybe_prev_wal_num;
 
+        // A manifest that ends in a torn write cannot be appended to. Later records would be
+        // unreachable behind the partial bytes.
+        let manifest_has_torn_tail = !matches!(manifest_reader.is_at_clean_end(), Ok(true));
+
         // Drop the manifest reader (and therefore the underlying file handle) before attempting to
         // reuse the existing manifest file
         drop(manifest_reader);
-        if self.maybe_reuse_manifest(&manifest_file_path) {
+        if !manifest_has_torn_tail && self.maybe_reuse_manifest(&manifest_file_path) {
             return Ok(true);
         }
 
